@@ -200,6 +200,11 @@ def main():
                     break
             else:
                 phi = bi("and", *[pred("ge", var(v), const(0)) for v in (vs * 2)[:2]])
+            if online and rng.random() < 0.3:
+                # a bounded past operator (or a comparison) directly on the caller's sample lists: nothing between the operator and
+                # the list object the caller handed in (seed C11-d)
+                q_ = un(rng.choice(["histT", "onceT"]), var(vs[0]), *rng.choice([(0, 1), (1, 2), (0, 2), (1, 1)]))
+                phi = q_ if len(vs) == 1 else bi(rng.choice(["and", "or"]), q_, rng.choice([var(vs[1]), un("histT", var(vs[1]), 0, 1), pred("ge", var(vs[1]), const(0))]))
             objs.append(ct_obj(phi, S, vs))
             evs.append(ev_parse(k + 1))
         # the signals cut into caller-owned chunks; chained chunks repeat the boundary sample (the usual way of feeding them)
